@@ -160,6 +160,41 @@ pub fn judge(c: &Case, st: &mut Stats) -> Verdict {
             }
         }
     }
+    // formatting into a sink that runs out of room fails cleanly - only a prefix of the line has been written - and
+    // leaves no trace: the value formats to the same line afterwards
+    {
+        use std::fmt::Write as _;
+        struct Bounded {
+            buf: String,
+            cap: usize,
+        }
+        impl std::fmt::Write for Bounded {
+            fn write_str(&mut self, x: &str) -> std::fmt::Result {
+                if self.buf.len() + x.len() > self.cap {
+                    return Err(std::fmt::Error);
+                }
+                self.buf.push_str(x);
+                Ok(())
+            }
+        }
+        for cap in [0usize, 12, s.len() / 2, s.len().saturating_sub(1)] {
+            if cap >= s.len() {
+                continue;
+            }
+            let mut sink = Bounded { buf: String::new(), cap };
+            let r = crate::engine::guard(|| write!(sink, "{}", lib));
+            match r {
+                Ok(Err(_)) if s.starts_with(&sink.buf) => {}
+                Ok(other) => return fail("format-into-full-sink", format!("Err with a prefix of the line written (room for {} of {} bytes)", cap, s.len()), format!("{:?}, wrote {:?}", other, sink.buf)),
+                Err(p) => return fail("format-panics", "an error from the sink is passed on".into(), format!("panic: {}", p)),
+            }
+            match crate::engine::guard(|| lib.to_string()) {
+                Ok(again) if again == s => {}
+                Ok(again) => return fail("format-after-failed-write", format!("the same line {:?}", s), format!("{:?}", again)),
+                Err(p) => return fail("format-panics", "a line".into(), format!("panic: {}", p)),
+            }
+        }
+    }
     // every text entry point parses it back
     let r = imp::v1_str(&s);
     match &r {
@@ -244,6 +279,77 @@ pub fn judge_line(x: &Vec<u8>, st: &mut Stats) -> Verdict {
     Ok(())
 }
 
+/// Two values whose lines are closely related (one component differs by a digit appended or dropped, or by one unit),
+/// judged first, second, first again on one thread: what was formatted or parsed before must not matter.
+#[derive(Clone, Debug)]
+pub struct Related(pub Case, pub Case);
+
+impl CaseIo for Related {
+    fn to_json(&self) -> serde_json::Value {
+        json!({"first": self.0.to_json(), "second": self.1.to_json()})
+    }
+    fn from_json(v: &serde_json::Value) -> Option<Self> {
+        Some(Related(Case::from_json(v.get("first")?)?, Case::from_json(v.get("second")?)?))
+    }
+    fn simpler(&self) -> Vec<Self> {
+        let mut out: Vec<Related> = self.0.simpler().into_iter().map(|a| Related(a, self.1.clone())).collect();
+        out.extend(self.1.simpler().into_iter().map(|b| Related(self.0.clone(), b)));
+        out
+    }
+}
+
+pub fn judge_related(c: &Related, st: &mut Stats) -> Verdict {
+    judge(&c.0, st)?;
+    judge(&c.1, st)?;
+    judge(&c.0, st)
+}
+
+fn tweak_port(t: &mut Tape, p: u16) -> u16 {
+    match t.below(4) {
+        0 => {
+            let q = p as u32 * 10 + t.below(10);
+            if q <= 65535 {
+                q as u16
+            } else {
+                p / 10
+            }
+        }
+        1 => p / 10,
+        2 => p.wrapping_add(1),
+        _ => p,
+    }
+}
+
+pub fn gen_related(t: &mut Tape) -> Related {
+    let a = gen_case(t);
+    let b = match &a.0 {
+        RefAddr::Unknown => gen_case(t).0,
+        RefAddr::Tcp4 { src, dst, sport, dport } => {
+            let (mut src, mut dst, mut sport, mut dport) = (*src, *dst, *sport, *dport);
+            match t.below(5) {
+                0 => dport = tweak_port(t, dport),
+                1 => sport = tweak_port(t, sport),
+                2 => dst[3] = if dst[3] < 25 { dst[3] * 10 + t.below(6) as u8 } else { dst[3] / 10 },
+                3 => src[t.below(4) as usize] = t.byte(),
+                _ => std::mem::swap(&mut src, &mut dst),
+            }
+            RefAddr::Tcp4 { src, dst, sport, dport }
+        }
+        RefAddr::Tcp6 { src, dst, sport, dport } => {
+            let (mut src, mut dst, mut sport, mut dport) = (*src, *dst, *sport, *dport);
+            match t.below(5) {
+                0 => dport = tweak_port(t, dport),
+                1 => sport = tweak_port(t, sport),
+                2 => dst[7] = if dst[7] < 0x1000 { dst[7] * 16 + t.below(16) as u16 } else { dst[7] / 16 },
+                3 => src[t.below(8) as usize] = t.u16(),
+                _ => std::mem::swap(&mut src, &mut dst),
+            }
+            RefAddr::Tcp6 { src, dst, sport, dport }
+        }
+    };
+    Related(a, Case(b))
+}
+
 pub fn gen_case(t: &mut Tape) -> Case {
     match t.weighted(&[1, 6, 8]) {
         0 => Case(RefAddr::Unknown),
@@ -260,6 +366,8 @@ pub fn run(r: &mut Runner) -> &'static str {
         .into();
     let n = r.n(300_000, 8_000_000);
     r.random("c08.roundtrip", n, 64, &gen_case, &judge);
+    let n = r.n(100_000, 2_500_000);
+    r.random("c08.related-values", n, 96, &gen_related, &judge_related);
     let n = r.n(100_000, 2_000_000);
     r.random("c08.header-display", n, 200, &|t| {
         let mut x = gen::gen_valid_line(t, false);
